@@ -3345,7 +3345,7 @@ func (b *SystemBackend) responseWrappingUnwrap(ctx context.Context, te *logical.
 			return "", fmt.Errorf("error decrementing wrapping token's use-count: %w", err)
 		}
 
-		defer b.Core.tokenStore.revokeOrphan(ctx, tokenID)
+		defer b.revokeUsedWrappingToken(ctx, te)
 	}
 
 	cubbyReq := &logical.Request{
@@ -3378,6 +3378,27 @@ func (b *SystemBackend) responseWrappingUnwrap(ctx context.Context, te *logical.
 	}
 
 	return response, nil
+}
+
+// revokeUsedWrappingToken tears down a wrapping token whose single use was
+// just counted on behalf of a third party. ctx must carry the token's
+// namespace. When the direct revocation fails half-way the teardown is handed
+// to the expiration manager, which retries it; otherwise the spent token, its
+// lease and the wrapped response would stay in storage until the wrap TTL.
+func (b *SystemBackend) revokeUsedWrappingToken(ctx context.Context, te *logical.TokenEntry) {
+	err := b.Core.tokenStore.revokeOrphan(ctx, te.ID)
+	if err == nil {
+		return
+	}
+	b.Core.logger.Warn("failed to revoke used wrapping token, queueing its revocation", "error", err)
+
+	leaseID, err := b.Core.expiration.CreateOrFetchRevocationLeaseByToken(ctx, te)
+	if err == nil {
+		err = b.Core.expiration.LazyRevoke(ctx, leaseID)
+	}
+	if err != nil {
+		b.Core.logger.Error("failed to queue revocation of used wrapping token", "error", err)
+	}
 }
 
 func (b *SystemBackend) handleMetrics(ctx context.Context, req *logical.Request, data *framework.FieldData) (*logical.Response, error) {
@@ -3682,7 +3703,7 @@ func (b *SystemBackend) handleWrappingRewrap(ctx context.Context, req *logical.R
 		if err != nil {
 			return nil, fmt.Errorf("error decrementing wrapping token's use-count: %w", err)
 		}
-		defer b.Core.tokenStore.revokeOrphan(rewrapCtx, te.ID)
+		defer b.revokeUsedWrappingToken(rewrapCtx, te)
 	}
 
 	// Fetch the original TTL
